@@ -46,46 +46,19 @@ var (
 
 func fits(x *big.Int) bool { return x.Cmp(bigMin) >= 0 && x.Cmp(bigMax) <= 0 }
 
-// rangeInDomain: no intermediate quantity of Range leaves int64 (see GENUINE DEFECT in the notes:
-// outside this domain Range hangs, panics in make or returns the empty set) and the result has
-// at most maxLen elements.  Panicking ("Infinite set") and empty calls only compare: always fine.
-func rangeInDomain(start, end, step int, maxLen int64) bool {
+// rangeCountOK: the result of Range(start, end, step) is small enough to allocate (at most maxLen
+// elements), or the call panics for certain: "Infinite set", or more than MaxInt elements (make).
+// The values themselves are not restricted.
+func rangeCountOK(start, end, step int, maxLen int64) bool {
 	if (end < start && step > 0) || (end > start && step < 0) || (end != start && step == 0) || end == start {
 		return true
 	}
-	s, e, st := big.NewInt(int64(start)), big.NewInt(int64(end)), big.NewInt(int64(step))
-	one := big.NewInt(1)
-	if end < start {
-		st.Neg(st) // step = -step
-		if !fits(st) {
-			return false
-		}
-		d := new(big.Int).Sub(s, e) // start - end
-		if !fits(d) {
-			return false
-		}
-		k := new(big.Int).Quo(new(big.Int).Sub(d, one), st)
-		ns := new(big.Int).Sub(s, new(big.Int).Mul(k, st))
-		ne := new(big.Int).Add(s, one)
-		if !fits(ne) {
-			return false
-		}
-		s, e = ns, ne
-	}
-	d := new(big.Int).Sub(e, s)
-	if !fits(d) {
-		return false
-	}
-	num := new(big.Int).Add(d, new(big.Int).Sub(st, one))
-	if !fits(num) {
-		return false
-	}
-	cnt := new(big.Int).Quo(num, st)
-	if cnt.Cmp(big.NewInt(maxLen)) > 0 {
-		return false
-	}
-	// the loop variable after the last element: start + cnt*step
-	return fits(new(big.Int).Add(s, new(big.Int).Mul(cnt, st)))
+	d := new(big.Int).Sub(big.NewInt(int64(end)), big.NewInt(int64(start)))
+	d.Abs(d)
+	st := new(big.Int).Abs(big.NewInt(int64(step)))
+	cnt := new(big.Int).Quo(new(big.Int).Sub(d, big.NewInt(1)), st)
+	cnt.Add(cnt, big.NewInt(1))
+	return cnt.Cmp(big.NewInt(maxLen)) <= 0 || cnt.Cmp(bigMax) > 0
 }
 
 func genHarden(g *hx.Gen) {
@@ -187,7 +160,7 @@ func genHarden(g *hx.Gen) {
 		g.Emit(seqCase(start, nil, ops))
 	}
 
-	// ---- Range at the ends of int64 (inside the domain where no intermediate overflows)
+	// ---- Range at the ends of int64: every combination of values, only the element count is bounded
 	anchors := []int{math.MinInt64, math.MinInt64 + 1, math.MinInt64 + 7, -(1 << 62) - 1, -(1 << 62), -(1 << 32), -1, 0, 1, 1 << 31, 1 << 32,
 		1<<62 - 1, 1 << 62, math.MaxInt64/2 + 1, math.MaxInt64 - 7, math.MaxInt64 - 1, math.MaxInt64}
 	steps := func() int {
@@ -199,6 +172,9 @@ func genHarden(g *hx.Gen) {
 		case 2:
 			return 1<<uint(r.Range(3, 61)) + r.Range(-3, 3)
 		case 3:
+			if r.Chance(1, 4) {
+				return math.MinInt64 + r.Intn(3) // negated below or used as is: -step wraps for MinInt
+			}
 			return math.MaxInt64 - r.Intn(4)
 		default:
 			return r.Range(10, 100000)
@@ -235,13 +211,13 @@ func genHarden(g *hx.Gen) {
 			continue
 		}
 		s, e := int(start.Int64()), int(end.Int64())
-		if !rangeInDomain(s, e, st, 2000) {
+		if !rangeCountOK(s, e, st, 2000) {
 			continue
 		}
 		g.Emit(fmt.Sprintf("range %d %d %d;", s, e, st))
 		emitted++
 	}
-	g.Note(fmt.Sprintf("extreme Range stream: %d calls inside the no-overflow domain (of %d drawn)", emitted, tried))
+	g.Note(fmt.Sprintf("extreme Range stream: %d calls with at most 2000 elements or a certain panic (of %d drawn)", emitted, tried))
 
 	// ---- ints.Sort on sub-slices of a larger array, sizes around the insertion sort threshold,
 	// huge runs of one value, killers behind a prefix
